@@ -85,6 +85,135 @@ def gen_reference(rng, n_genes):
     return reference_texts(anno, genome, proteome), anno, genome
 
 
+def _parse_models(texts):
+    """(anno, genome) models of reference texts (through temporary files)."""
+    import tempfile
+    from pathlib import Path
+    from moPepGen import gtf as _gtf, dna as _dna
+    with tempfile.TemporaryDirectory(prefix='wl_') as d:
+        d = Path(d)
+        (d / 'a.gtf').write_text(texts['gtf'])
+        (d / 'g.fa').write_text(texts['genome_fa'])
+        anno = _gtf.GenomicAnnotation()
+        anno.dump_gtf(d / 'a.gtf')
+        genome = _dna.DNASeqDict()
+        genome.dump_fasta(d / 'g.fa')
+    return anno, genome
+
+
+COMP = {'A': 'T', 'T': 'A', 'G': 'C', 'C': 'G', 'N': 'N'}
+
+
+def gen_paralog_reference(rng, n_genes):
+    """A generated reference plus a **paralog copy** of every gene on a second chromosome.  The copy differs from
+    the original by a few single-base substitutions inside coding exons and by W>F codon changes (TGG -> TTC), so
+    that (a) an SNV on the original gene that introduces the paralog's base yields peptides that are *canonical*
+    (they are digestion products of the paralog's protein), and (b) W>F reassignment products of the original are
+    canonical peptides of the paralog.  Returns (texts, anno, genome, mirror_lines): mirror_lines are GVF record
+    lines for the SNVs of kind (a)."""
+    texts, anno, genome = gen_reference(rng, n_genes)
+    chrom = next(iter(genome.keys()))
+    seq = str(genome[chrom].seq)
+    copy_ = list(seq)
+    mirrors = []          # (tx_id, gene_id, gene_pos, ref, alt)
+    for tx_id, tm in anno.transcripts.items():
+        if not tm.is_protein_coding or not tm.cds:
+            continue
+        strand = tm.transcript.strand
+        tx_seq = tm.get_transcript_sequence(genome[chrom])
+        s = str(tx_seq.seq)
+        start, end = int(tx_seq.orf.start), int(tx_seq.orf.end)
+        codons = list(range(start, end - 2, 3))
+        if len(codons) < 8:
+            continue
+        tgg = [c for c in codons[2:-2] if s[c:c + 3] == 'TGG']
+        plan = [(c, 'w2f') for c in rng.sample(tgg, min(len(tgg), 3))]
+        others = [c for c in codons[2:-2] if c not in tgg]
+        plan += [(c, 'snv') for c in rng.sample(others, min(len(others), rng.randint(2, 5)))]
+        for c, kind in plan:
+            if kind == 'w2f':
+                edits = [(c + 1, 'T'), (c + 2, 'C')]
+            else:
+                i = c + rng.randrange(3)
+                alt = rng.choice([b for b in 'ACGT' if b != s[i]])
+                new_codon = s[c:i] + alt + s[i + 1:c + 3]
+                if new_codon in ('TAA', 'TAG', 'TGA') or s[c:c + 3] in ('TAA', 'TAG', 'TGA', 'ATG'):
+                    continue
+                edits = [(i, alt)]
+            for i, alt in edits:
+                g = anno.coordinate_transcript_to_genomic(i, tx_id)
+                copy_[g] = alt if strand == 1 else COMP[alt]
+                if kind == 'snv':
+                    gene_id = tm.transcript.gene_id
+                    mirrors.append((tx_id, gene_id, anno.coordinate_genomic_to_gene(g, gene_id), s[i], alt, g))
+    # all W codons of the copy that were not picked stay W; now also force every remaining in-frame TGG of ONE gene
+    new_chrom = chrom + 'p'
+
+    def rename(x):
+        return x.replace('FAKEG0', 'FAKEG1').replace('FAKET0', 'FAKET1').replace('FAKEP0', 'FAKEP1') \
+            .replace('FAKET2', 'FAKET3').replace('FAKEP2', 'FAKEP3')
+    # a second isoform (same structure, own transcript / protein id) for some genes: two transcripts of one batch
+    # then yield the same peptides
+    twins = set()
+    gtf_lines, block, gene_id = [], [], None
+
+    def flush():
+        gtf_lines.extend(block)
+        if block and gene_id is not None and rng.random() < 0.4:
+            twins.add(gene_id)
+            gtf_lines.extend(l.replace('FAKET0', 'FAKET2').replace('FAKEP0', 'FAKEP2') for l in block)
+        block.clear()
+    for l in texts['gtf'].splitlines():
+        if not l or l.startswith('#'):
+            continue
+        f = l.split('\t')
+        if f[2] == 'gene':
+            flush()
+            gtf_lines.append(l)
+            gene_id = [a.strip().split(' ', 1)[1].strip('"') for a in f[8].split(';')
+                       if a.strip().startswith('gene_id ')][0]
+        else:
+            block.append(l)
+    flush()
+    par_lines = []
+    for l in gtf_lines:
+        if not l or l.startswith('#'):
+            continue
+        f = l.split('\t')
+        f[0] = new_chrom
+        f[8] = rename(f[8])
+        par_lines.append('\t'.join(f))
+    gtf2 = '\n'.join(gtf_lines + par_lines) + '\n'
+    par_seq = ''.join(copy_)
+    genome2 = texts['genome_fa'].rstrip('\n') + '\n>' + new_chrom + '\n' + \
+        '\n'.join(par_seq[i:i + 60] for i in range(0, len(par_seq), 60)) + '\n'
+    t2 = {'gtf': gtf2, 'genome_fa': genome2, 'proteome_fa': ''}
+    anno2, genome_m2 = _parse_models(t2)
+    # the paralog transcripts are coding iff their original is
+    proteome = aa.AminoAcidSeqDict()
+    for tx_id, tm in anno2.transcripts.items():
+        orig = 'FAKET0' + tx_id[6:]
+        tm.is_protein_coding = anno.transcripts[orig].is_protein_coding
+    proteome = translate_proteome(anno2, genome_m2)
+    texts2 = reference_texts(anno2, genome_m2, proteome)
+    anno3, genome3 = _parse_models(texts2)
+    for tx_id, tm in anno3.transcripts.items():
+        tm.is_protein_coding = tx_id in proteome
+    mirror_lines = []
+    from moPepGen.SeqFeature import FeatureLocation
+    for tx_id, gene_id, gpos, ref, alt, g in mirrors:
+        gm = anno.genes[gene_id]
+        rec = seqvar.VariantRecord(
+            location=FeatureLocation(start=gpos, end=gpos + 1, seqname=gene_id), ref=ref, alt=alt, _type='SNV',
+            _id=f'{gene_id}-{gpos}-{ref}-{alt}',
+            attrs={'TRANSCRIPT_ID': tx_id, 'GENOMIC_POSITION': f'{gm.chrom}-{g}:{g + 1}', 'GENE_SYMBOL': gm.gene_name})
+        mirror_lines.append(rec.to_string())
+        if gene_id in twins:
+            rec.attrs['TRANSCRIPT_ID'] = 'FAKET2' + tx_id[6:]
+            mirror_lines.append(rec.to_string())
+    return texts2, anno3, genome3, mirror_lines
+
+
 # ---------------------------------------------------------------------------------------------
 # variant records
 # ---------------------------------------------------------------------------------------------
@@ -216,6 +345,23 @@ def gen_records(rng, anno, genome, n_records, mix=None, cluster=False, intronic_
             stats['gen_fail'] += 1
             continue
         (cir if isinstance(r, circ.CircRNAModel) else var)[(tx, r.id)] = r
+        if k == 'fusion' and rng.random() < 0.35:
+            # a second fusion from the SAME donor breakpoint to another accepter (what a fusion caller reports for
+            # one breakpoint joined to two partner transcripts)
+            try:
+                with global_random(rng):
+                    r2 = fake.fake_fusion(anno, genome, tx)
+                if r2.attrs['ACCEPTER_TRANSCRIPT_ID'] != r.attrs['ACCEPTER_TRANSCRIPT_ID'] or \
+                        r2.attrs['ACCEPTER_POSITION'] != r.attrs['ACCEPTER_POSITION']:
+                    r2.location = r.location
+                    r2.ref = r.ref
+                    r2.attrs['GENOMIC_POSITION'] = r.attrs['GENOMIC_POSITION']
+                    r2.id = (f"FUSION-{tx}:{int(r.location.start)}-{r2.attrs['ACCEPTER_TRANSCRIPT_ID']}:"
+                             f"{r2.attrs['ACCEPTER_POSITION']}")
+                    var[(tx, r2.id)] = r2
+                    stats['sibling_fusions'] = stats.get('sibling_fusions', 0) + 1
+            except Exception:  # pylint: disable=broad-except
+                stats['gen_fail'] += 1
     if cluster:
         coding = [t for t in active if anno.transcripts[t].is_protein_coding] or active
         tx = rng.choice(coding)
